@@ -1,14 +1,14 @@
 SPECIFICATION Spec
 CONSTANTS
   Users = {"u1", "u2", "u3"}
-  Dirs = {"D1", "D2", "D3"}
-  Files = {"f1", "f2", "f3"}
+  Dirs = {"D1", "D2", "D3", "D4"}
+  Files = {"f1", "f2", "f3", "f4"}
   Variants = {"exact"}
   Modes = {"everyone", "friends", "users"}
   UserSets = {{}, {"u1"}, {"u2", "u3"}}
   BlockSets = {{"up"}, {"search"}, {"up", "search", "shares"}}
   PhraseSets <- PS_Big
-  InitShared = {{"D1"}, {"D1", "D3"}, {"D1", "D2", "D3"}, {"D2", "D3"}}
+  InitShared = {{"D1"}, {"D1", "D3"}, {"D1", "D2", "D3"}, {"D2", "D3"}, {"D1", "D2", "D4"}}
   FriendUsers = {"u1", "u2"}
   MaxCfg = 7
   MaxReq = 4
@@ -18,6 +18,8 @@ CONSTANTS
   FoldExcluded = TRUE
   DirReplyLocks = TRUE
   ScanDirCycles = TRUE
+  AlwaysAccumulate = FALSE
+  FlagsTakenAtStart = TRUE
   RevertWithinTick = FALSE
 INVARIANT TypeOK
 INVARIANT VisibleOnlyIfEntitledByMode
